@@ -242,6 +242,10 @@ class Model:
     def in_S(self, raw):
         return None if raw is None else self.apply_in(raw, "S")
 
+    def in_S_nested(self, raw):
+        # a null nested in an input object / list is a value like any other: the hooks of its type govern it (both routes)
+        return self.apply_in(raw, "S")
+
     def in_E(self, raw):
         if raw is None:
             return None
@@ -260,14 +264,14 @@ class Model:
             return None
         out = {}
         if "s" in raw:
-            out["s"] = self.apply_in(self.in_S(raw["s"]), "In.s") if raw["s"] is not None else None
+            out["s"] = self.apply_in(self.in_S_nested(raw["s"]), "In.s")
         if "e" in raw:
             v = self.in_E(raw["e"])
             out["e"] = v.extend(self.apply_tags_list("In.e")) if v is not None else None
         if "n" in raw:
             out["n"] = self.apply_in(self.in_In2(raw["n"]), "In.n") if raw["n"] is not None else None
         if "l" in raw:
-            out["l"] = self.apply_in([self.in_S(x) for x in raw["l"]], "In.l") if raw["l"] is not None else None
+            out["l"] = self.apply_in([self.in_S_nested(x) for x in raw["l"]], "In.l") if raw["l"] is not None else None
         return self.apply_in(out, "In")
 
     def apply_tags_list(self, site, hook="in"):
@@ -363,13 +367,13 @@ def lit(v):
 def gen_in(c, uniq):
     raw = {}
     if c.maybe(70):
-        raw["s"] = uniq("s")
+        raw["s"] = uniq("s") if c.maybe(85) else None  # an explicit null nested in the object (literal `s: null` / JSON null)
     if c.maybe(50):
         raw["e"] = c.choice(ENUM_VALUES)
     if c.maybe(40):
         raw["n"] = {"s": uniq("n")} if c.maybe(80) else {}
     if c.maybe(40):
-        raw["l"] = [uniq("l") for _ in range(c.int(0, 2))]
+        raw["l"] = [uniq("l") if c.maybe(80) else None for _ in range(c.int(0, 2))]
     return raw
 
 
